@@ -1,6 +1,7 @@
 package main
 
 import (
+	"context"
 	"fmt"
 	"math/rand"
 	"sort"
@@ -129,7 +130,7 @@ func init() {
 			"(inconsistent combinations skipped and counted) x pairing {Failover/ShardedMap, Failover/SyncMap, FailoverOf/ShardedMapOf} x 4 repetitions alternating SyncRead off/on (thorough: 12 and custom UpdateTTL/FailedUpdateTTL values); " +
 			"each lone Get is judged against the documented outcome (result class, builder invocation count and timing, backend content and failure cache after quiescence, no lock left) and all pairings/repetitions of a cell must agree; " +
 			"distinct_nontrivial = number of distinct consistent cells executed (every cell is non-trivial: it fixes one row of the table)",
-		Required:    []string{"cells.executed", "runs", "runs.entry_deleted_during_build"},
+		Required:    []string{"cells.executed", "runs", "runs.entry_deleted_during_build", "runs.noncomparable_values", "runs.after_recovered_builder_panic"},
 		Assumptions: []string{"README ambiguity for 'failure cached + stale value available': both the cached error and the stale value are accepted", "entry states use TTL margins (>=1s / 1h MaxStaleness / 2h+ too stale)"},
 	})
 }
@@ -162,6 +163,11 @@ func runC03(b *Batch) {
 					if cell.FUT == 0 {
 						cfg.FailedUpdateTTL = []time.Duration{time.Minute, 24 * time.Hour}[rep%2]
 					}
+				}
+				cfg.Observe = rep%3 == 2 // nor on ObserveMutability, whatever the value type (the interface API stores non-comparable values too)
+				cfg.SliceVals = cfg.Observe && p[0] == "Failover"
+				if cfg.SliceVals {
+					b.R.Count("runs.noncomparable_values", 1)
 				}
 				variant := []string{"", "precancel", "", "deadline"}[rep%4]
 				obs, x := c03Run(cfg, cell, rng, variant, false)
@@ -209,6 +215,31 @@ func runC03(b *Batch) {
 				x.release()
 			}
 		}
+		// ... nor depend on the key's history: an earlier Get of the same key whose builder panicked leaves nothing behind
+		for _, p := range foPairings {
+			rng := rand.New(rand.NewSource(b.CaseSeed(ci*1000 + 888)))
+			cfg := foConfig{API: p[0], BackendKind: p[1], SyncUpdate: cell.SU, FailHard: cell.FH, MaxStaleness: cell.MS, FailedUpdateTTL: cell.FUT}
+			obs, x := c03Run(cfg, cell, rng, "panic-first", false)
+			b.R.Eval()
+			if obs.Result == "inconclusive-timeout" {
+				b.R.Inconcl("C03 lone Get after a recovered builder panic did not return within the watchdog, no key lock held")
+				x.release()
+				continue
+			}
+			b.R.Count("runs.after_recovered_builder_panic", 1)
+			okRes := false
+			for _, e := range exp {
+				if e.Result == obs.Result && e.Builds == obs.Builds {
+					okRes = true
+				}
+			}
+			if !okRes {
+				sig := fmt.Sprintf("C03:%s:%s/fc=%v/build=%v/fh=%v:after-builder-panic:res=%s", p[0], cell.State, cell.FC, cell.BuildOK, cell.FH, obs.Result)
+				b.R.Violate(b, ci, sig, fmt.Sprintf("cell %s on %s/%s after an earlier Get of the key whose builder panicked (recovered by its caller): observed result %s builds=%d, documented {%s}", cell, p[0], p[1], obs.Result, obs.Builds, strings.Join(expS, " | ")),
+					map[string]interface{}{"cell": cell.String(), "pairing": p, "events": x.snapshotLog()})
+			}
+			x.release()
+		}
 		// "determined by": all pairings and repetitions of a cell agree, except for the builder timing of background updates
 		norm := map[string]bool{}
 		for cl := range classes {
@@ -229,6 +260,17 @@ func c03Run(cfg foConfig, cell c03Cell, rng *rand.Rand, ctxVariant string, hosti
 	sc := newSched(false, "random", rng)
 	sc.delayProb = 0
 	r := newFoRun(cfg, [][]byte{[]byte("the-key")}, sc)
+	if ctxVariant == "panic-first" {
+		// history: an earlier Get of this key whose builder panicked (synchronous build of an absent entry), recovered by
+		// its caller as an HTTP recovery middleware would do. Nothing is in flight afterwards.
+		func() {
+			defer func() { _ = recover() }()
+			_, _, _ = r.fo.Get(bg, []byte("the-key"), func(context.Context) (string, error) { panic("builder panic") })
+		}()
+		r.mu.Lock()
+		r.log = nil
+		r.mu.Unlock()
+	}
 	var prepop string
 	if cell.State != "absent" {
 		prepop = r.prepopulate(rng, 0, cell.State)
@@ -243,7 +285,20 @@ func c03Run(cfg foConfig, cell c03Cell, rng *rand.Rand, ctxVariant string, hosti
 		}
 		return buildOutcome{OK: cell.BuildOK}
 	}
-	r.doGet(0, getSpec{Key: 0, PreCancel: ctxVariant == "precancel", Deadline: ctxVariant == "deadline"})
+	returned := make(chan struct{})
+	go func() {
+		r.doGet(0, getSpec{Key: 0, PreCancel: ctxVariant == "precancel", Deadline: ctxVariant == "deadline"})
+		close(returned)
+	}()
+	select {
+	case <-returned:
+	case <-time.After(20 * time.Second):
+		// a lone Get with an instant builder: it can only be waiting for a key lock nobody is going to release
+		if lk := r.fo.LockedKeys(); len(lk) > 0 {
+			return c03Obs{Result: "blocked-on-leftover-key-lock", Backend: "-", Locked: len(lk)}, r
+		}
+		return c03Obs{Result: "inconclusive-timeout", Backend: "-"}, r
+	}
 	for dl := time.Now().Add(3 * time.Second); time.Now().Before(dl); {
 		if len(r.fo.LockedKeys()) == 0 {
 			break
@@ -287,7 +342,8 @@ func c03Run(cfg foConfig, cell c03Cell, rng *rand.Rand, ctxVariant string, hosti
 	default:
 		o.Result = "other:" + ret.Val
 	}
-	v, err := r.be.Read(bg, []byte("the-key"))
+	rv, err := r.be.Read(bg, []byte("the-key"))
+	v, _ := tokOf(rv)
 	switch {
 	case err == nil && v == newTok && newTok != "":
 		o.Backend = "new"
@@ -296,7 +352,8 @@ func c03Run(cfg foConfig, cell c03Cell, rng *rand.Rand, ctxVariant string, hosti
 	case errClass(err) == "notfound":
 		o.Backend = "absent"
 	case errClass(err) == "expired":
-		if sv, _, _ := r.be.Expired(err); sv == prepop {
+		sv, _, _ := r.be.Expired(err)
+		if st, _ := tokOf(sv); st == prepop {
 			o.Backend = "prepop-expired"
 		} else {
 			o.Backend = "other-expired"
